@@ -103,6 +103,8 @@ func runC12(c *Ctx) {
 	c12TokenOrigin(c, ns)
 	c12SeparatorFlag(c, ns)
 	c12DigitClass(c, ns)
+	// `digits.` and `digits.digits` are recognised with the look-ahead helpers
+	c14PeekHelpers(c, "C12.peek-helpers")
 }
 
 // c12SeparatorFlag: "this literal contained a separator" is a bit the fragment scanner ORs into the token flags and the
@@ -424,8 +426,34 @@ func c12Diagnostics(c *Ctx, ns *numberScanner) {
 		}
 	}
 	c.R.Check(rule, "trailing-separator", c.P.Pos(f.Pos()), trailing, "a fragment that ends in `_` must raise a diagnostic after the loop")
-	// state updates: a digit allows a separator and clears previous-was-separator; a separator forbids the next one
-	c.R.Floor(rule, 5)
+	// state updates: a digit allows a separator and clears previous-was-separator; an accepted separator forbids the
+	// next one and records itself (otherwise `1__0` passes as 10, or a trailing `_` goes unnoticed)
+	nextState := func(r *FoldResult, p *ssa.Phi) (bool, bool) {
+		acc := LV{K: lTop}
+		for i, e := range p.Edges {
+			pred := h.Preds[i]
+			if !ns.FragLoop.Body[pred] || !r.Reach[pred] || !r.Edge[[2]int{pred.Index, h.Index}] {
+				continue
+			}
+			acc = meet(acc, r.Val(e))
+		}
+		if acc.K != lConst || acc.C.Kind() != constant.Bool {
+			return false, false
+		}
+		return constant.BoolVal(acc.C), true
+	}
+	for _, tr := range []struct {
+		name              string
+		ch                rune
+		allow, prev       bool
+		wantAllow, wantPr bool
+	}{{"digit", '7', false, true, true, false}, {"digit-after-digit", '7', true, false, true, false}, {"accepted-separator", '_', true, false, false, true}} {
+		r := c.foldWith(f, 1, pinValue(ch, constant.MakeInt64(int64(tr.ch))), pinValue(allow, constant.MakeBool(tr.allow)), pinValue(prevSep, constant.MakeBool(tr.prev)), pinLoopEntered(h))
+		a, okA := nextState(r, allow)
+		p, okP := nextState(r, prevSep)
+		c.R.Check(rule, "transition:"+tr.name, c.P.Pos(f.Pos()), okA && okP && a == tr.wantAllow && p == tr.wantPr, fmt.Sprintf("after %s (in state separator-allowed=%v, previous-was-separator=%v) the state must become (%v,%v); it becomes (%v,%v) [decided=%v,%v]: a separator must be followed by a digit before the next separator or the end of the fragment", tr.name, tr.allow, tr.prev, tr.wantAllow, tr.wantPr, a, p, okA, okP))
+	}
+	c.R.Floor(rule, 8)
 }
 
 // blockAfterCall: block b (or its unique predecessors chain) is entered on the true edge of a call to f.
